@@ -614,6 +614,82 @@ def ss_part(run, np, SSModel, defs, quick):
                 run.trace_validated()
 
 
+def ssobjects_part(run, np, SSModel, quick):
+    """specs/SSObjects.tla: models as objects on a heap; every call history replayed on real SSModel objects; after EVERY call
+    every object created so far is re-read (Immutable) and, at the end, compared with a fresh replay of its derivation"""
+    cfg = "MC_SSObjects.cfg" if quick else "MC_SSObjects_t.cfg"
+    res = tlc.run("SSObjects", cfg, timeout=900)
+    run.add_tlc(cfg, res, "heap of model objects; Immutable, DomainIsParity, DerivationExtendsSource, CallsConsistent, Alternates")
+    if res.violation:
+        run.violation("TLC: %s on the SSObjects model" % res.violation, {"tlc": res.error_text()}, {"where": "model"})
+        return
+    rng = np.random.default_rng(run.seed + 23)
+    systems = [(cls, make_sys(np, rng, cls)) for cls in ("oscillator", "realpoles", "mimo", "integrator")]
+    # the same systems with column-major inputs: what a caller's arrays may look like
+    systems += [(cls + "/F", tuple(np.asfortranarray(x) if isinstance(x, np.ndarray) else x for x in sy)) for cls, sy in systems[:3]]
+
+    def snap(m):
+        return {nm: getattr(m, nm).copy() for nm in "ABCD"}, m.h
+
+    def same(m, sn):
+        return all(np.array_equal(getattr(m, nm), sn[0][nm]) for nm in "ABCD") and m.h == sn[1]
+
+    def conv(model, op, m, pw, h, w):
+        kw = {"prewarp": w} if pw == "w" else {}
+        return model.c2d(h, method=m, **kw) if op == "c2d" else model.d2c(method=m, **kw)
+
+    hists = res.tagged("OBJS")
+    stride = 1 if not quick else max(1, len(hists) // 700)
+    for hi, (objs, calls) in enumerate(hists):
+        if hi % stride:
+            continue
+        cls, (A, B, C, D, h, w) = systems[hi % len(systems)]
+        if cls.startswith("integrator") and any(c["op"] == "d2c" and c["m"] == "zoh" for c in calls):
+            continue          # outside the documented formula's domain (singular continuous A)
+        key = tuple((c["src"], c["op"], c["m"], c["pw"]) for c in calls)
+        run.case(("objects", cls, key), nontrivial=len(objs) >= 2, part="model objects")
+        tags = {"sys": cls, "methods": sorted({c["m"] for c in calls}), "part": "objects"}
+        args = [x.copy(order="K") for x in (A, B, C, D)]
+        keep = [x.copy(order="K") for x in args]
+        try:
+            heap = [SSModel(*args)]
+            snaps = [snap(heap[0])]
+            bad = None
+            for k, c in enumerate(calls):
+                r = conv(heap[c["src"] - 1], c["op"], c["m"], c["pw"], h, w)
+                if c["res"] == c["src"]:
+                    if r is not heap[c["src"] - 1]:
+                        bad = "call %d: a model already in the target domain was not returned itself" % (k + 1)
+                else:
+                    heap.append(r)
+                    snaps.append(snap(r))
+                    if (r.h is None) != (objs[c["res"] - 1]["dom"] == "c"):
+                        bad = "call %d: the new model's domain is not %s" % (k + 1, objs[c["res"] - 1]["dom"])
+                for j, (mj, sj) in enumerate(zip(heap, snaps)):
+                    if not same(mj, sj):
+                        bad = "call %d (%s %s on object %d) changed object %d, which it should not touch" % (k + 1, c["op"], c["m"], c["src"], j + 1)
+                        break
+                if not all(np.array_equal(x, y) for x, y in zip(args, keep)):
+                    bad = "call %d (%s %s) changed the arrays the first model was built from" % (k + 1, c["op"], c["m"])
+                if bad:
+                    break
+            if bad is None:
+                for j, o in enumerate(objs):
+                    fresh = SSModel(*[x.copy(order="K") for x in keep])
+                    for (op, m, pw) in o["deriv"]:
+                        fresh = conv(fresh, op, m, pw, h, w)
+                    d = same_model(np, heap[j], fresh, 1e-12)
+                    if d:
+                        bad = "object %d is not what a fresh replay of its derivation %s gives (%s)" % (j + 1, list(o["deriv"]), d)
+                        break
+        except Exception as exn:
+            run.violation("conversion raised %r" % exn, {"sys": cls, "calls": calls}, tags)
+            continue
+        if bad:
+            run.violation("SSModel objects: " + bad, {"sys": cls, "calls": calls, "h": h}, tags)
+        run.trace_validated()
+
+
 def body(run: Run, replay):
     import numpy as np
     warnings.simplefilter("ignore")
@@ -624,7 +700,8 @@ def body(run: Run, replay):
                 "norm classes 1e-6..1e3 incl. both sides of the getEPQ switch x order x B x half x {getEPQ, getEPQ1, getEPQ2, getEPQ_pow} "
                 "against the series definitions evaluated at 40+0.9||Ah|| digits; branch/route events validated by TLC; SSModel: every "
                 "conversion history of length %d over 4 methods x prewarp on 4 system classes, discrete matrices vs terms, sampled "
-                "response, bilinear law. distinct non-trivial = lattice points / histories" % (2 if quick else 3))
+                "response, bilinear law; model objects on a heap (SSObjects): every history of %d calls on any earlier object, every object re-read "
+                "after every call. distinct non-trivial = lattice points / histories" % (2 if quick else 3, 3 if quick else 4))
     run.assumptions = ["tolerance = %g x (measured change of the exact result under a %g-ulp relative perturbation of A + 40 ulp of its size): "
                        "a loss of 1-2 digits beyond that is not detected" % (SAFETY, PERT),
                        "results that overflow binary64 are skipped; expmint_pow / getEPQ_pow are compared for ||Ah|| <= 2.1 only "
@@ -634,6 +711,7 @@ def body(run: Run, replay):
     defs = expm_part(run, np, em, quick)
     if defs is not None:
         ss_part(run, np, SSModel, defs, quick)
+        ssobjects_part(run, np, SSModel, quick)
 
 
 if __name__ == "__main__":
